@@ -83,6 +83,19 @@ def load_instrumented(modname):
     except BaseException:
         sys.modules.pop(modname, None)
         raise
+    # second line of defence: a module that binds the lock factories by name at import time
+    # (`from threading import Lock`) or keeps a module-level lock must still use simulator locks
+    lock_type = type(_thread.allocate_lock())
+    rlock_type = type(_real_threading.RLock())
+    for name, val in list(mod.__dict__.items()):
+        if val is _real_threading.Lock or val is _thread.allocate_lock:
+            mod.__dict__[name] = lambda: SimLock(False)
+        elif val is _real_threading.RLock:
+            mod.__dict__[name] = lambda: SimLock(True)
+        elif isinstance(val, lock_type):
+            mod.__dict__[name] = SimLock(False)
+        elif isinstance(val, rlock_type):
+            mod.__dict__[name] = SimLock(True)
     if parent:
         setattr(sys.modules[parent], modname.rpartition(".")[2], mod)
     _INSTRUMENTED[modname] = n
